@@ -39,6 +39,16 @@ const BYTE_TOKENS: &[&[u8]] = &[
 const ALNUM_PREFIXES: &[&[u8]] = &[
     b"HTTPS://", b"HTTP://", b"WWW.", b"FTP://", b"MAILTO:", b"TEL:+", b"TEL:", b"SMSTO:", b"SMS:", b"GEO:", b"WIFI:T:WPA", b"WIFI:S:", b"BEGIN:VCARD", b"MECARD:N:", b"MATMSG:TO:", b"URN:", b"BITCOIN:",
     b"%", b"$", b" ", b"*", b"+", b"-", b".", b"/", b":", b"0", b"00", b"A", b"Z", b"9:", b"1/2", b"3.14", b"-1", b"$100", b"100%",
+    b"12:34:56", b"2024:06:30:23:59", b"00:00:00:00", b"192.168.0.1:8080", b"1-800-555-0199", b"+1 555 0100", b"0123456789:", b"99999999:9999999",
+];
+
+/// Non-ASCII characters that ASCII-minded code confuses with digits, letters or blanks (`char::is_numeric`,
+/// `is_alphanumeric`, `is_whitespace`, case mapping): digits of other scripts, fullwidth forms, superscripts,
+/// fractions, Roman numerals, non-breaking and ideographic spaces. All of them are plain bytes >= 0x80 to a QR encoder.
+pub const UNICODE_LOOKALIKES: &[&str] = &[
+    "\u{FF11}\u{FF12}\u{FF13}", "\u{0663}\u{0664}", "\u{0967}\u{0968}", "12\u{00BD}", "2\u{00B2}", "\u{2460}\u{2461}", "\u{216B}", "\u{FF21}\u{FF22}\u{FF23}", "\u{FF41}",
+    "\u{00C9}COLE", "STRA\u{00DF}E", "\u{0130}", "A\u{00A0}B", "A\u{3000}B", "\u{2007}12", "1\u{202F}000", "\u{FF10}", "\u{06F0}\u{06F1}\u{06F2}\u{06F3}\u{06F4}\u{06F5}\u{06F6}\u{06F7}\u{06F8}",
+    "\u{FF04}100", "100\u{FF05}", "\u{FF0B}33", "\u{2212}1", "3\u{FF0E}14", "12\u{FF1A}30",
 ];
 const ALNUM_TOKENS: &[&[u8]] = &[
     b"EXAMPLE.COM", b"/", b".", b":", b"-", b"+", b"*", b"%", b"$", b" ", b"HELLO WORLD", b"0123456789", b"ABCDEFGHIJKLMNOPQRSTUVWXYZ", b"EC11", b"QR", b"2024-01-01", b"12:30", b"555-1234", b"%20", b"A1", b"Z9",
